@@ -1,0 +1,17 @@
+//go:build verif
+
+package sortition
+
+import "github.com/ipfs/go-log"
+
+// Verification hook for property C42 (thin wrapper, no behaviour of its own).
+
+// VerifC42CheckOperatorStatus runs checkOperatorStatus, the function MonitorPool
+// calls at start and on every tick with the same chain handle and join policy.
+func VerifC42CheckOperatorStatus(
+	logger log.StandardLogger,
+	chain Chain,
+	policy JoinPolicy,
+) error {
+	return checkOperatorStatus(logger, chain, policy)
+}
